@@ -135,6 +135,10 @@ func runC07(o *Options) *Result {
 			if !utf8.Valid(in) {
 				return nil, false
 			}
+			// a string literal, not a JSON text: encoding/json would also accept white space around it
+			if len(in) < 2 || in[0] != '"' || in[len(in)-1] != '"' {
+				return nil, false
+			}
 			var s string
 			if err := json.Unmarshal(in, &s); err != nil {
 				return nil, false
